@@ -12,9 +12,9 @@ func init() {
 		ID: "C01",
 		Explain: "The round-trip statement over values is not decidable statically; decided are its structural necessary conditions, for every archive: " +
 			"(A1) column table: for every field of Agency, Route, Stop, Transfer, Service, ScheduledTrip, ScheduledStopTime, ShapePoint/Shape, Frequency the CSV column(s) that can reach it (backward provenance through locals, phis, id maps and carrier structs) equal the GTFS reference, text columns are stored verbatim, typed columns pass through exactly their decoder; references are resolved by id lookup into the result's own collection; " +
-			"(A2) every enum decoder's extracted decision table maps each GTFS digit to the constant the reference names; (TIME) H:MM:SS is 3600h+60m+s seconds, linear, without modulo, accumulated in base 10; dates use layout 20060102 in the location handed down, which is the first agency's zone or UTC; " +
+			"(A2) every enum decoder's extracted decision table maps each GTFS digit to the constant the reference names; (TIME) H:MM:SS is 3600h+60m+s seconds, linear, without modulo, accumulated in base 10; dates use layout 20060102 in the location handed down, which is the first agency's zone or UTC, and come from nowhere else (no time.Date / Unix / AddDate construction in the static parser); " +
 			"(A5) the file table binds each supported file name to its parse function with GTFS's optionality, phases respect def-use order, members are looked up by exact name from a map of all archive members; " +
-			"(A4/CSV) the CSV reader is created only over the BOM-aware transformer and only ReuseRecord is configured, header names map to their position in the first record and cells are indexed only through that map (column order, extra columns, BOM, quoting, CRLF are the library's business); (ROW) no row appends more than one entity; the stop-time capacity pre-allocation never discards collected stop times; (G7) no package-level state. " +
+			"(A4/CSV) the archive member is read only by the csv reader (no raw Read on it before or beside), the CSV reader is created only over the BOM-aware transformer and only ReuseRecord is configured, header names map to their position in the first record and cells are indexed only through that map (column order, extra columns, BOM, quoting, CRLF are the library's business); (ROW) no row appends more than one entity; the stop-time capacity pre-allocation never discards collected stop times; (G7) no package-level state. " +
 			"Not decided: numerical correctness of strconv and the digit loop, zip/csv decoding themselves.",
 		Rules: []Rule{
 			{Name: "A1", Doc: "column table and decoder tables against the GTFS reference", MinInstances: 49, Run: func(c *Ctx) { runColumnTable(c, nil) }},
